@@ -209,4 +209,273 @@ theorem pillar_epoch_within_emission (rc : RCfg) (cons : Cons) (st : Store) (e :
     · simp only at t1 ⊢; omega
     · simp only at t2 ⊢; omega
 
+/-! ### every contract, one statement -/
+
+/-- the premises, bundled (see the head of the file) -/
+structure Premises (k : Kind) (rc : RCfg) (cons : Cons) : Prop where
+  dur : rc.c.epochSec < (two63 : Int)
+  mpe_pos : 0 < rc.mpe
+  mpe_int64 : rc.mpe < (two63 : Int)
+  cons_ok : k = .pillar → ∀ e, ConsOK rc.mpe (cons.stats e) (cons.delegs e)
+
+/-- storage premise: PillarInfo entries have distinct names (pillar contract only) -/
+def StoreOK (k : Kind) (st : Store) : Prop := k = .pillar → (st.pillars.map (fun i => i.name)).Nodup
+
+/-- "epoch `e`'s computation stayed within the emission": credited to all accounts plus minted to the contract itself,
+    minus what was burned from the contract's balance, per coin -/
+def Within (k : Kind) (mpe : Int) (e : Nat) (o : EpochOut) : Prop :=
+  ∃ Ez Eq, emission k mpe e = some (Ez, Eq) ∧
+    (sumZ o.credits : Int) + o.mint.1 ≤ Ez + (o.burn.1 : Int) ∧ (sumQ o.credits : Int) + o.mint.2 ≤ Eq + (o.burn.2 : Int) ∧
+    0 ≤ o.mint.1 ∧ 0 ≤ o.mint.2
+
+/-- for EVERY contract and EVERY storage: one epoch's computation is within that contract's emission of the epoch -/
+theorem epoch_within_emission (k : Kind) (rc : RCfg) (cons : Cons) (st : Store) (e : Nat) (o : EpochOut)
+    (hp : Premises k rc cons) (hs : StoreOK k st) (h : updateEpoch k rc cons st e = some o) : Within k rc.mpe e o := by
+  cases k with
+  | stake =>
+    obtain ⟨T, hT, h1, h2, h3, h4⟩ := stake_epoch_within_emission rc cons st e o hp.dur h
+    refine ⟨0, T, by simp [emission, hT], ?_, ?_, ?_, ?_⟩ <;> simp [h1, h3, h4, h2]
+  | sentinel =>
+    obtain ⟨Tz, Tq, hT, h1, h2, h3, h4⟩ := sentinel_epoch_within_emission rc cons st e o h
+    refine ⟨Tz, Tq, by simp [emission, hT], ?_, ?_, ?_, ?_⟩ <;> simp [h3, h4, h1, h2]
+  | pillar =>
+    obtain ⟨d, p, hdp, h1, h2, h3, h4⟩ := pillar_epoch_within_emission rc cons st e o hp.mpe_pos hp.mpe_int64 (hs rfl)
+      (hp.cons_ok rfl e) h
+    refine ⟨(d + p) * rc.mpe, 0, by simp [emission, hdp], ?_, ?_, ?_, ?_⟩ <;> simp [h2, h3, h4, h1]
+  | liqOrigin =>
+    obtain ⟨Tz, Tq, hT, h1, h2, h3, hz, hq⟩ := liquidity_origin_epoch rc cons st e o h
+    refine ⟨Tz, Tq, by simp [emission, hT], ?_, ?_, ?_, ?_⟩ <;> simp [h1, h2, h3, sumZ, sumQ, hz, hq]
+  | liqStake =>
+    obtain ⟨Tz, Tq, hT, h1, h2, h3, h4, _, _⟩ := liquidity_epoch_within_emission rc cons st e o h
+    exact ⟨Tz, Tq, by simp [emission, hT], by omega, by omega, h3, h4⟩
+
+/-! ### runs -/
+
+/-- the emission of a list of epochs, per coin -/
+def emissionSum (k : Kind) (mpe : Int) : List Int → Int × Int
+  | [] => (0, 0)
+  | e :: es => (((emission k mpe e.toNat).getD (0, 0)).1 + (emissionSum k mpe es).1,
+                ((emission k mpe e.toNat).getD (0, 0)).2 + (emissionSum k mpe es).2)
+
+/-- net issuance to the contract itself (liquidity): minted to it minus burned from its balance -/
+def netToContract : List (Int × EpochOut) → Int × Int
+  | [] => (0, 0)
+  | x :: xs => (x.2.mint.1 - (x.2.burn.1 : Int) + (netToContract xs).1, x.2.mint.2 - (x.2.burn.2 : Int) + (netToContract xs).2)
+
+private theorem sumZ_append (a b : List Credit) : sumZ (a ++ b) = sumZ a + sumZ b := by
+  simp [sumZ, List.map_append, List.sum_append]
+private theorem sumQ_append (a b : List Credit) : sumQ (a ++ b) = sumQ a + sumQ b := by
+  simp [sumQ, List.map_append, List.sum_append]
+
+private theorem within_sum (k : Kind) (mpe : Int) : ∀ outs : List (Int × EpochOut),
+    (∀ x ∈ outs, Within k mpe x.1.toNat x.2) →
+    (sumZ (creditsOf outs) : Int) + (netToContract outs).1 ≤ (emissionSum k mpe (outs.map (·.1))).1 ∧
+    (sumQ (creditsOf outs) : Int) + (netToContract outs).2 ≤ (emissionSum k mpe (outs.map (·.1))).2
+  | [], _ => by simp [creditsOf, sumZ, sumQ, netToContract, emissionSum]
+  | x :: outs, h => by
+    obtain ⟨i1, i2⟩ := within_sum k mpe outs (fun y hy => h y (by simp [hy]))
+    obtain ⟨Ez, Eq, hE, w1, w2, _, _⟩ := h x (by simp)
+    have hc : creditsOf (x :: outs) = x.2.credits ++ creditsOf outs := by simp [creditsOf]
+    rw [hc, sumZ_append, sumQ_append]
+    simp only [List.map_cons, emissionSum, netToContract, hE, Option.getD_some, Int.natCast_add]
+    omega
+
+private theorem all_within (k : Kind) (rc : RCfg) (cons : Cons) (hp : Premises k rc cons) :
+    ∀ (ops : List ROp) (s : RState), StoreOK k s.store → (∀ st, ROp.mutate st ∈ ops → StoreOK k st) →
+      ∀ x ∈ epochOuts (run k rc cons s ops).2, Within k rc.mpe x.1.toNat x.2
+  | [], s, _, _ => by simp [RewardEpoch.run, epochOuts]
+  | .update h ts :: os, s, hs, hm => by
+    have hm' : ∀ st, ROp.mutate st ∈ os → StoreOK k st := fun st h => hm st (by simp [h])
+    cases hu : update k rc cons s h ts with
+    | none =>
+      simp only [RewardEpoch.run, RewardEpoch.step, hu, epochOuts]
+      exact all_within k rc cons hp os s hs hm'
+    | some r =>
+      obtain ⟨s', outs⟩ := r
+      obtain ⟨cs', es, h1, h2, h3⟩ := update_some k rc cons s s' h ts outs hu
+      obtain ⟨_, r2, r3⟩ := rewardAll_spec k rc cons es s.store s'.store outs h2
+      have hs' : StoreOK k s'.store := fun hk => by rw [r2]; exact hs hk
+      simp only [RewardEpoch.run, RewardEpoch.step, hu, epochOuts]
+      intro x hx
+      rcases List.mem_append.mp hx with hx | hx
+      · obtain ⟨st0, e1, e2⟩ := r3 x hx
+        exact epoch_within_emission k rc cons st0 x.1.toNat x.2 hp (fun hk => by rw [e1]; exact hs hk) e2
+      · exact all_within k rc cons hp os s' hs' hm' x hx
+  | .collect a :: os, s, hs, hm => by
+    have hm' : ∀ st, ROp.mutate st ∈ os → StoreOK k st := fun st h => hm st (by simp [h])
+    simp only [RewardEpoch.run, epochOuts]
+    cases hc : collect s.cs a with
+    | none => simp only [RewardEpoch.step, hc, epochOuts]; exact all_within k rc cons hp os s hs hm'
+    | some r => simp only [RewardEpoch.step, hc, epochOuts]; exact all_within k rc cons hp os _ hs hm'
+  | .mutate st :: os, s, hs, hm => by
+    have hm' : ∀ st, ROp.mutate st ∈ os → StoreOK k st := fun st h => hm st (by simp [h])
+    simp only [RewardEpoch.run, RewardEpoch.step, epochOuts]
+    exact all_within k rc cons hp os _ (hm st (by simp)) hm'
+
+/-- THE END-TO-END STATEMENT. For every contract, every initial storage and cursor, every sequence of Update /
+    CollectReward calls and arbitrary changes of the contract's entries in between, every chain of timestamps:
+      * everything credited to all accounts over the run (plus the net issuance to the liquidity contract itself) is,
+        per coin, at most the protocol emission summed over EXACTLY the epochs rewarded in the run;
+      * those epochs are strictly increasing (no epoch twice), all after the initial cursor and up to the final one;
+      * unless the contract runs the origin-table liquidity method (F14), they are exactly cursor₀+1 … cursor: no gaps. -/
+theorem total_credited_le_total_emission (k : Kind) (rc : RCfg) (cons : Cons) (hp : Premises k rc cons)
+    (s : RState) (ops : List ROp) (hs : StoreOK k s.store) (hm : ∀ st, ROp.mutate st ∈ ops → StoreOK k st) :
+    (sumZ (allCredits (run k rc cons s ops).2) : Int) + (netToContract (epochOuts (run k rc cons s ops).2)).1 ≤
+      (emissionSum k rc.mpe (rewardedEpochs (run k rc cons s ops).2)).1 ∧
+    (sumQ (allCredits (run k rc cons s ops).2) : Int) + (netToContract (epochOuts (run k rc cons s ops).2)).2 ≤
+      (emissionSum k rc.mpe (rewardedEpochs (run k rc cons s ops).2)).2 ∧
+    (rewardedEpochs (run k rc cons s ops).2).Pairwise (· < ·) ∧
+    (∀ e ∈ rewardedEpochs (run k rc cons s ops).2, s.cs.cursor < e ∧ e ≤ (run k rc cons s ops).1.cs.cursor) ∧
+    (k ≠ .liqOrigin → ∃ n : Nat, (run k rc cons s ops).1.cs.cursor = s.cs.cursor + n ∧
+      rewardedEpochs (run k rc cons s ops).2 = consecutive s.cs.cursor n) := by
+  obtain ⟨w1, w2⟩ := within_sum k rc.mpe _ (all_within k rc cons hp ops s hs hm)
+  obtain ⟨l1, l2, _, _⟩ := lower_run k rc cons ops s
+  obtain ⟨o1, o2, _⟩ := C11Node.rewarded_once_in_order rc.c (variantOf k) s.cs (lower k rc cons s ops)
+  rw [l1] at o2
+  rw [l2] at o1 o2
+  refine ⟨w1, w2, o1, o2, ?_⟩
+  intro hk
+  have hv : variantOf k ≠ .liqOrigin := by cases k <;> simp [variantOf] at hk ⊢
+  obtain ⟨n, n1, n2⟩ := C11Node.rewarded_exactly_once rc.c (variantOf k) hv s.cs (lower k rc cons s ops)
+  rw [l1] at n1
+  rw [l2] at n2
+  exact ⟨n, n1, n2⟩
+
+/-- the origin-table liquidity method: the bound holds all the same, only "no gaps" is lost (known finding F14:
+    `C11Node.epoch_cursor_liq_origin_partial`, witness `C11Node.liq_origin_skips_epoch`) — the skipped epoch is never
+    minted, so less than the emission is issued -/
+theorem total_credited_liq_origin_partial (rc : RCfg) (cons : Cons) (hp : Premises .liqOrigin rc cons) (s : RState) (ops : List ROp) :
+    (netToContract (epochOuts (run .liqOrigin rc cons s ops).2)).1 ≤ (emissionSum .liqOrigin rc.mpe (rewardedEpochs (run .liqOrigin rc cons s ops).2)).1 ∧
+    (rewardedEpochs (run .liqOrigin rc cons s ops).2).Pairwise (· < ·) := by
+  have h := total_credited_le_total_emission .liqOrigin rc cons hp s ops (fun hk => by cases hk) (fun _ _ hk => by cases hk)
+  refine ⟨?_, h.2.2.1⟩
+  have := h.1
+  omega
+
+/-! ### collecting -/
+
+/-- conservation per account over any run: minted to `a` + still collectable by `a` = collectable at the start +
+    credited to `a` by the reward computations (composition of the simulation with `C11Node.deposit_conservation`) -/
+theorem minted_eq_credited (k : Kind) (rc : RCfg) (cons : Cons) (s : RState) (ops : List ROp) (a : Addr) :
+    mintedTo a (run k rc cons s ops).2 + (run k rc cons s ops).1.cs.dep a =
+      s.cs.dep a + creditedTo a (allCredits (run k rc cons s ops).2) := by
+  obtain ⟨l1, _, l3, l4⟩ := lower_run k rc cons ops s
+  have h := C11Node.deposit_conservation rc.c (variantOf k) s.cs (lower k rc cons s ops) a
+  rw [l1, l3 a, l4 a] at h
+  exact h
+
+/-- CollectReward never mints more than was credited: from empty deposits, per account and coin -/
+theorem minted_le_credited (k : Kind) (rc : RCfg) (cons : Cons) (s : RState) (ops : List ROp) (a : Addr)
+    (h0 : s.cs.dep a = Coins.zero) :
+    (mintedTo a (run k rc cons s ops).2).znn ≤ (creditedTo a (allCredits (run k rc cons s ops).2)).znn ∧
+    (mintedTo a (run k rc cons s ops).2).qsr ≤ (creditedTo a (allCredits (run k rc cons s ops).2)).qsr := by
+  have h := minted_eq_credited k rc cons s ops a
+  rw [h0, Coins.zero_add'] at h
+  have hz := congrArg Coins.znn h
+  have hq := congrArg Coins.qsr h
+  simp only [Coins.add_znn, Coins.add_qsr] at hz hq
+  omega
+
+/-- … and exactly what was credited once the account's deposit is empty again, which is the case right after its
+    CollectReward (`collect_empties`) -/
+theorem minted_eq_credited_when_collected (k : Kind) (rc : RCfg) (cons : Cons) (s : RState) (ops : List ROp) (a : Addr)
+    (hcol : (run k rc cons s ops).1.cs.dep a = Coins.zero) :
+    mintedTo a (run k rc cons s ops).2 = s.cs.dep a + creditedTo a (allCredits (run k rc cons s ops).2) := by
+  have h := minted_eq_credited k rc cons s ops a
+  rw [hcol, Coins.add_zero'] at h
+  exact h
+
+/-- after a CollectReward call of `a` — granted or refused — `a`'s deposit is empty -/
+theorem collect_empties (k : Kind) (rc : RCfg) (cons : Cons) (s : RState) (a : Addr) :
+    (RewardEpoch.step k rc cons s (.collect a)).1.cs.dep a = Coins.zero := by
+  cases hc : collect s.cs a with
+  | none =>
+    simp only [RewardEpoch.step, hc]
+    exact (C11Node.collect_refused_iff_empty s.cs a).mp hc
+  | some r =>
+    obtain ⟨ms, cs'⟩ := r
+    simp only [RewardEpoch.step, hc]
+    exact (C11Node.collect_once s.cs cs' a ms hc).2.2.2.1
+
+private theorem nat_sum_zero {α : Type} (l : List α) : (l.map (fun _ => (0 : Nat))).sum = 0 := by
+  induction l with
+  | nil => rfl
+  | cons x l ih => simp only [List.map_cons, List.sum_cons, ih]
+
+private theorem nat_sum_add {α : Type} (f g : α → Nat) (l : List α) :
+    (l.map (fun x => f x + g x)).sum = (l.map f).sum + (l.map g).sum := by
+  induction l with
+  | nil => rfl
+  | cons x l ih => simp only [List.map_cons, List.sum_cons, ih]; omega
+
+private theorem ite_sum_le (x : Addr) (v : Nat) : ∀ l : List Addr, l.Nodup → (l.map (fun a => if x = a then v else 0)).sum ≤ v
+  | [], _ => by simp
+  | a :: l, hnd => by
+    have hnd' := List.nodup_cons.mp hnd
+    simp only [List.map_cons, List.sum_cons]
+    by_cases hx : x = a
+    · subst hx
+      have : l.map (fun a => if x = a then v else 0) = l.map (fun _ => 0) := by
+        apply List.map_congr_left
+        intro b hb
+        have : x ≠ b := fun h => hnd'.1 (h ▸ hb)
+        simp [this]
+      rw [this, nat_sum_zero]; simp
+    · have := ite_sum_le x v l hnd'.2
+      simp only [hx, if_false]; omega
+
+/-- distinct accounts share the credits: what a list of credits gives to any set of distinct accounts is at most its total -/
+private theorem creditedTo_sum_le (π : Coins → Nat) (h0 : π Coins.zero = 0) (hadd : ∀ a b, π (a + b) = π a + π b)
+    (l : List Addr) (hnd : l.Nodup) : ∀ cs : List Credit,
+    (l.map (fun a => π (creditedTo a cs))).sum ≤ (cs.map (fun x => π x.2)).sum
+  | [] => by
+    simp only [creditedTo, List.foldr_nil, h0, List.map_nil, List.sum_nil]
+    rw [nat_sum_zero]; exact Nat.le_refl _
+  | x :: cs => by
+    have ih := creditedTo_sum_le π h0 hadd l hnd cs
+    have e : l.map (fun a => π (creditedTo a (x :: cs))) =
+        l.map (fun a => (if x.1 = a then π x.2 else 0) + π (creditedTo a cs)) := by
+      apply List.map_congr_left
+      intro a _
+      simp only [creditedTo, List.foldr_cons, hadd]
+      by_cases hx : x.1 = a <;> simp [hx, h0]
+    rw [e, nat_sum_add]
+    have := ite_sum_le x.1 (π x.2) l hnd
+    simp only [List.map_cons, List.sum_cons]
+    omega
+
+/-- everything minted by CollectReward to ANY set of distinct accounts over a run that starts with empty deposits is,
+    per coin, within the emission of exactly the epochs rewarded in the run (stake, sentinel, pillar: nothing is
+    minted to the contract itself) -/
+theorem total_minted_le_total_emission (k : Kind) (rc : RCfg) (cons : Cons) (hp : Premises k rc cons)
+    (s : RState) (ops : List ROp) (hs : StoreOK k s.store) (hm : ∀ st, ROp.mutate st ∈ ops → StoreOK k st)
+    (accounts : List Addr) (hnd : accounts.Nodup) (h0 : ∀ a ∈ accounts, s.cs.dep a = Coins.zero) :
+    ((accounts.map (fun a => (mintedTo a (run k rc cons s ops).2).znn)).sum : Int) +
+        (netToContract (epochOuts (run k rc cons s ops).2)).1 ≤
+      (emissionSum k rc.mpe (rewardedEpochs (run k rc cons s ops).2)).1 ∧
+    ((accounts.map (fun a => (mintedTo a (run k rc cons s ops).2).qsr)).sum : Int) +
+        (netToContract (epochOuts (run k rc cons s ops).2)).2 ≤
+      (emissionSum k rc.mpe (rewardedEpochs (run k rc cons s ops).2)).2 := by
+  obtain ⟨t1, t2, _⟩ := total_credited_le_total_emission k rc cons hp s ops hs hm
+  have mono : ∀ (f g : Addr → Nat) (l : List Addr), (∀ a ∈ l, f a ≤ g a) → (l.map f).sum ≤ (l.map g).sum := by
+    intro f g l
+    induction l with
+    | nil => intro _; simp
+    | cons a l ih =>
+      intro h
+      have h1 := h a (by simp)
+      have h2 := ih (fun b hb => h b (by simp [hb]))
+      simp only [List.map_cons, List.sum_cons]; omega
+  have mz := mono (fun a => (mintedTo a (run k rc cons s ops).2).znn)
+    (fun a => (creditedTo a (allCredits (run k rc cons s ops).2)).znn) accounts
+    (fun a ha => (minted_le_credited k rc cons s ops a (h0 a ha)).1)
+  have mq := mono (fun a => (mintedTo a (run k rc cons s ops).2).qsr)
+    (fun a => (creditedTo a (allCredits (run k rc cons s ops).2)).qsr) accounts
+    (fun a ha => (minted_le_credited k rc cons s ops a (h0 a ha)).2)
+  have cz := creditedTo_sum_le Coins.znn rfl (fun _ _ => rfl) accounts hnd (allCredits (run k rc cons s ops).2)
+  have cq := creditedTo_sum_le Coins.qsr rfl (fun _ _ => rfl) accounts hnd (allCredits (run k rc cons s ops).2)
+  have ez : (allCredits (run k rc cons s ops).2).map (fun x => Coins.znn x.2) = (allCredits (run k rc cons s ops).2).map (fun x => x.2.znn) := rfl
+  simp only [sumZ, sumQ] at t1 t2
+  constructor <;> omega
+
 end ZV.C11Epoch
